@@ -212,7 +212,18 @@ pub fn run_child(ctx: &Ctx, env: &Env, sched: &Schedule, durable: &Durable) -> R
     let mut cmd = Command::new("env");
     cmd.arg("-i");
     for (k, v) in &vars {
-        cmd.arg(format!("{k}={v}"));
+        use std::os::unix::ffi::OsStringExt;
+        // U+E9FF in a seeded value stands for the lone byte 0xE9 (not valid UTF-8)
+        let mut bytes: Vec<u8> = Vec::new();
+        for ch in format!("{k}={v}").chars() {
+            if ch == '\u{e9ff}' {
+                bytes.push(0xE9);
+            } else {
+                let mut b = [0u8; 4];
+                bytes.extend_from_slice(ch.encode_utf8(&mut b).as_bytes());
+            }
+        }
+        cmd.arg(std::ffi::OsString::from_vec(bytes));
     }
     cmd.args(&argv);
     cmd.arg("session");
@@ -345,6 +356,8 @@ pub struct Corpus {
     pub collisions: Vec<Vec<usize>>,
     /// harvested keys that share the item text (the same item under several derives)
     pub item_groups: Vec<Vec<usize>>,
+    /// harvested keys that share the type identifier, whatever the derive and the body
+    pub name_groups: Vec<Vec<usize>>,
     pub base: Vec<Key>,
     pub faults: Vec<Key>,
     pub derives: Vec<&'static str>,
@@ -634,6 +647,42 @@ pub fn gen_session(seed: u64, index: u64, c: &Corpus) -> Session {
                 };
                 reqs.insert(at + n, Request { w, k: idx, mode: Mode::Catch });
             }
+        }
+    }
+    // name groups: different items (and derives) that merely share the type's name, back to back
+    if !c.name_groups.is_empty() {
+        for _ in 0..r.below(3) {
+            let g = r.pick(&c.name_groups);
+            let w = r.below(workers);
+            let at = r.below(reqs.len() + 1);
+            let mut members: Vec<usize> = g.clone();
+            r.shuffle(&mut members);
+            for (n, i) in members.iter().take(4).enumerate() {
+                let pick = c.base[*i].clone();
+                let idx = match keys.iter().position(|x| *x == pick) {
+                    Some(p) => p,
+                    None => {
+                        keys.push(pick);
+                        keys.len() - 1
+                    }
+                };
+                reqs.insert(at + n, Request { w, k: idx, mode: Mode::Catch });
+            }
+        }
+    }
+    // sibling derives: an item (or its twin) under the derive that usually accompanies this one
+    // (Deref/DerefMut, Index/IndexMut, AsRef/AsMut, Add/AddAssign, Unwrap/TryUnwrap/IsVariant, From/Into, ...)
+    for _ in 0..r.below(4) {
+        let base = r.below(fault_lo.max(1));
+        if let Some(sib) = workload::sibling_derive(&keys[base].derive, &mut r) {
+            let item = if r.chance(1, 2) { keys[base].item.clone() } else { workload::twin(&keys[base].clone(), &mut r).map(|t| t.item).unwrap_or_else(|| keys[base].item.clone()) };
+            keys.push(Key { derive: sib.to_string(), item });
+            let sk = keys.len() - 1;
+            let w = r.below(workers);
+            let at = r.below(reqs.len() + 1);
+            let (a, b) = if r.chance(1, 2) { (base, sk) } else { (sk, base) };
+            reqs.insert(at, Request { w, k: b, mode: Mode::Catch });
+            reqs.insert(at, Request { w, k: a, mode: Mode::Catch });
         }
     }
     // twins: an item and its near-copy (same derive, name and arity; other variant / field names, types,
